@@ -38,10 +38,12 @@ func (c17) Info(tier string) fw.Info {
 		Level: "exploration",
 		Rule: "seeded programs spawning 1..8 cores (also nested spawns) that print unique lines, write unique values to scalar globals and read them between op_begin/op_end, receive distinct scalar and list arguments, finish at very different times, optionally with one core failing at a chosen step; each program is run under the race detector with GOMAXPROCS in {1,2,4,16} and seed-determined yield plans at the VM's scheduling points (wait lock-upgrade gap, spawn, globals lock). " +
 			"oracle: no race report with a /repo frame; every expected line appears exactly once and whole; arguments echo the spawn-time values; every fin(id) event precedes the wait-returned event; a failing core's fatal interrupt is what the wait returns; the history of global reads/writes is linearizable per global (porcupine, register model). " +
+			"family shared-ro: globals holding ranges, int lists, str lists and strings which the cores only read, and range/list/str spawn arguments taken from a global, from a local of main shared by several spawns or from a literal, consumed by 2..8 cores at overlapping times through for / for+break (and re-entry) / for+continue / nested for / for over a local copy / index+len, with a host scheduling point tick() in every loop body and GOMAXPROCS set per case; oracle: every core prints exactly the result line its function prints in the sequential twin of the program (each `spawn f(..)` replaced by the call `f(..)`), plus the oracles above. " +
 			"non-trivial = at least 2 cores ran and the run finished; distinct = distinct (program, plan, GOMAXPROCS); interleavings_distinct counts distinct per-core event orders observed",
 		Assumptions: []string{
 			"schedules are sampled (yield plans + GOMAXPROCS), not enumerated",
 			"mutable containers reachable from several cores are not synchronised by design notes in the code (TODO deepcopy) and are only read in the main workload",
+			"family shared-ro: the reference result of a worker is what the real VM computes for the same function called sequentially (twin run, one core); what an iteration yields is not modelled",
 		},
 		CaseTimeoutS: 60,
 		BatchSize:    40,
@@ -56,9 +58,13 @@ func (c17) Info(tier string) fw.Info {
 type Payload struct {
 	Seed  uint64 `json:"seed"`
 	Plan  uint64 `json:"plan"`
-	Shape string `json:"shape"` // print | globals | args | mixed | fail | nested | late-spawn
+	Shape string `json:"shape"` // print | globals | args | mixed | fail | nested | late-spawn | shared-ro
 	// ForceGap: always sleep in the wait lock-upgrade gap (pinned witnesses).
 	ForceGap bool `json:"force_gap,omitempty"`
+	// Procs: GOMAXPROCS for this case (0 = whatever the batch runs with).
+	Procs int `json:"procs,omitempty"`
+	// Hot: shared-ro only, index of the global every worker of the program consumes (stratified over the programs).
+	Hot int `json:"hot,omitempty"`
 }
 
 var shapes = []string{"print", "globals", "args", "mixed", "fail", "nested", "late-spawn"}
@@ -79,6 +85,25 @@ func (c17) Cases(tier string, seed uint64) []fw.Case {
 			n++
 		}
 	}
+	// family shared-ro (see sharedro.go): own generator stream, so that the cases above do not move.
+	// Plan-major order; every (program, plan) pair runs under each GOMAXPROCS value.
+	rr := fw.NewRng(seed ^ 0xC17520)
+	nro, roPlans := 10, 3
+	if tier == "thorough" {
+		nro, roPlans = 40, 8
+	}
+	roSeeds := make([]uint64, nro)
+	for i := range roSeeds {
+		roSeeds[i] = rr.Next()
+	}
+	for j := 0; j < roPlans; j++ {
+		for i := 0; i < nro; i++ {
+			plan := rr.Next()
+			for _, procs := range []int{1, 2, 4, 16} {
+				cases = append(cases, fw.MkCase(fmt.Sprintf("c17-ro-%03d-%d-p%d", i, j, procs), "threads", Payload{Seed: roSeeds[i], Plan: plan, Shape: "shared-ro", Procs: procs, Hot: i % roGlobals}))
+			}
+		}
+	}
 	return cases
 }
 
@@ -96,6 +121,9 @@ type spec struct {
 }
 
 func build(p Payload) spec {
+	if p.Shape == "shared-ro" {
+		return buildSharedRO(p, false)
+	}
 	r := fw.NewRng(p.Seed)
 	var sb strings.Builder
 	sp := spec{lines: map[string]int{}}
@@ -223,6 +251,32 @@ type monitor struct {
 	// yield plan
 	prng     *rand.Rand
 	planMode map[string]int
+	// tick (the scheduling point programs call themselves): mode and salt are fixed before the run starts
+	tickMode int
+	tickSalt uint64
+}
+
+// tick is the host function `tick(id, j)`. Unlike yield it touches no shared memory at all (its decision is
+// a pure function of the plan and its arguments): a mutex or an atomic here would order the cores'
+// surrounding memory accesses for the race detector and hide exactly the races the caller is placed next to.
+func (m *monitor) tick(id, j int64) {
+	if m.tickMode == 0 {
+		return
+	}
+	h := (m.tickSalt ^ uint64(id)*0x9E3779B97F4A7C15 ^ uint64(j)*0xC2B2AE3D27D4EB4F) * 0xFF51AFD7ED558CCD
+	x := int((h >> 33) % 100)
+	switch m.tickMode {
+	case 1:
+		if x < 50 {
+			goruntime.Gosched()
+		}
+	case 2:
+		if x < 30 {
+			time.Sleep(time.Duration(50+x*10) * time.Microsecond)
+		}
+	case 3:
+		time.Sleep(100 * time.Microsecond)
+	}
 }
 
 func (m *monitor) yield(site string) {
@@ -272,6 +326,7 @@ func analyzerScope() map[string]analyzer.Variable {
 	s["op_end"] = analyzer.NewBuiltinVar(ast.NewFunctionType(ast.NewNormalFunctionTypeParamKind([]ast.FunctionTypeParam{
 		param("t", ast.NewIntType(sp)), param("write", ast.NewBoolType(sp)), param("key", ast.NewIntType(sp)), param("val", ast.NewIntType(sp)),
 	}), sp, ast.NewNullType(sp), sp))
+	s["tick"] = analyzer.NewBuiltinVar(ast.NewFunctionType(ast.NewNormalFunctionTypeParamKind([]ast.FunctionTypeParam{param("id", ast.NewIntType(sp)), param("j", ast.NewIntType(sp))}), sp, ast.NewNullType(sp), sp))
 	return s
 }
 
@@ -283,6 +338,16 @@ func (m *monitor) vmScope(exec drive.VMExec) map[string]vvalue.Value {
 		m.mu.Lock()
 		m.events = append(m.events, event{"fin", id, t})
 		m.mu.Unlock()
+		return vvalue.NewValueNull(), nil
+	})
+	s["tick"] = *vvalue.NewValueBuiltinFunction(func(_ vvalue.Executor, _ *context.Context, span herrors.Span, args ...vvalue.Value) (*vvalue.Value, *vvalue.VmInterrupt) {
+		id, j := args[0].(vvalue.ValueInt).Inner, args[1].(vvalue.ValueInt).Inner
+		// j is the caller's own count of loop iterations: beyond roTickBudget (no worker of the family can get
+		// anywhere near it) some loop does not terminate. Deterministic and again without shared memory.
+		if j > roTickBudget {
+			return nil, vvalue.NewVMFatalException(fmt.Sprintf("tick budget: the function with id %d has counted %d loop iterations, its loops over finite values do not terminate", id, j), vvalue.Vm_HostErrorKind, span)
+		}
+		m.tick(id, j)
 		return vvalue.NewValueNull(), nil
 	})
 	s["op_begin"] = *vvalue.NewValueBuiltinFunction(func(_ vvalue.Executor, _ *context.Context, _ herrors.Span, args ...vvalue.Value) (*vvalue.Value, *vvalue.VmInterrupt) {
@@ -350,23 +415,95 @@ var regModel = porcupine.Model{
 	},
 }
 
-func (c17) Run(c fw.Case) fw.Result {
-	var p Payload
-	fw.Decode(c, &p)
-	sp := build(p)
-	res := fw.Result{Verdict: fw.Held, Cover: []string{"shape:" + p.Shape, fmt.Sprintf("gomaxprocs:%d", goruntime.GOMAXPROCS(0))}}
-	src := drive.Sources{"main": sp.src}
-	host := &drive.Host{Src: src}
-	mods, diags, syn := hms.Analyze(hms.InputProgram{ProgramText: sp.src, Filename: "main"}, analyzerScope(), host, true)
+// execution is what one run of a program under a monitor yields.
+type execution struct {
+	log        *drive.Log
+	out        drive.Outcome
+	tWait      int64
+	stragglers int
+}
+
+// execute analyzes, compiles and runs src on the real VM. hooks=false: no yields at the VM's scheduling points
+// (the sequential twin). A non-empty sig means the program did not get as far as running.
+func execute(src string, mon *monitor, hooks bool) (ex execution, sig, why string) {
+	srcs := drive.Sources{"main": src}
+	host := &drive.Host{Src: srcs}
+	mods, diags, syn := hms.Analyze(hms.InputProgram{ProgramText: src, Filename: "main"}, analyzerScope(), host, true)
 	ao := drive.AnalyzeOut{Diags: diags, Syntax: syn}
 	if len(syn) > 0 || strings.Contains(ao.ErrorSummary(), "error ") {
-		res.Verdict, res.Sig, res.Why = fw.Violated, "harness:program-rejected", "generated thread program rejected: "+ao.ErrorSummary()+"\n"+sp.src
-		return res
+		return ex, "harness:program-rejected", "generated thread program rejected: " + ao.ErrorSummary() + "\n" + src
 	}
 	prog, err := drive.Compile(mods, "main")
 	if err != nil {
-		res.Verdict, res.Sig, res.Why = fw.Violated, "harness:compile", err.Error()
-		return res
+		return ex, "harness:compile", err.Error()
+	}
+	installHooks()
+	if hooks {
+		curMon.Store(mon)
+	} else {
+		curMon.Store(nil)
+	}
+	defer curMon.Store(nil)
+	ex.log = &drive.Log{}
+	exec := drive.VMExec{L: ex.log, Src: srcs}
+	ctx, cancel := context.WithCancel(context.Background())
+	defer cancel()
+	limits := runtime.CoreLimits{CallStackMaxSize: 100, StackMaxSize: 500, MaxMemorySize: 10000}
+	var cf context.CancelFunc = cancel
+	vm := runtime.NewVM(prog, exec, &ctx, &cf, mon.vmScope(exec), limits)
+	vm.SpawnAsync(runtime.MainFn(), nil, nil, nil)
+	_, intr := vm.Wait()
+	ex.tWait = mon.clock.Add(1)
+	ex.out = drive.VMOutcome(intr)
+	// let stragglers (cores that Wait did not wait for) reveal themselves: sample until stable
+	for i := 0; i < 200; i++ {
+		n := coreGoroutines()
+		if n == 0 {
+			break
+		}
+		ex.stragglers = n
+		time.Sleep(time.Millisecond)
+	}
+	return ex, "", ""
+}
+
+func writes(l *drive.Log) []string {
+	var out []string
+	for _, e := range l.Snapshot() {
+		if e.Kind == "write" {
+			out = append(out, e.Text)
+		}
+	}
+	return out
+}
+
+func (c17) Run(c fw.Case) fw.Result {
+	var p Payload
+	fw.Decode(c, &p)
+	if p.Procs > 0 {
+		defer goruntime.GOMAXPROCS(goruntime.GOMAXPROCS(p.Procs))
+	}
+	sp := build(p)
+	res := fw.Result{Verdict: fw.Held, Cover: []string{"shape:" + p.Shape, fmt.Sprintf("gomaxprocs:%d", goruntime.GOMAXPROCS(0))}}
+	// family shared-ro: the reference is the sequential twin, run first (one core, no yields)
+	var twin map[string][]string
+	if p.Shape == "shared-ro" {
+		tsrc := buildSharedRO(p, true).src
+		tex, sig, why := execute(tsrc, &monitor{planMode: map[string]int{}}, false)
+		if sig == "" && tex.out.Class != "ok" {
+			sig, why = "twin:outcome:"+tex.out.Class+"/"+tex.out.Kind, fmt.Sprintf("the sequential twin ended with %s\n--- twin\n%s", tex.out, tsrc)
+		}
+		if sig != "" {
+			res.Verdict, res.Sig, res.Why = fw.Violated, sig, why
+			return res
+		}
+		var rest []string
+		// one core: the twin's output is one well-defined text, however it was handed to the host
+		twin, rest = roResults(strings.SplitAfter(strings.Join(writes(tex.log), ""), "\n"))
+		if len(rest) > 0 || len(twin) != len(sp.fins)-1 {
+			res.Verdict, res.Sig, res.Why = fw.Violated, "harness:twin-output", fmt.Sprintf("the sequential twin printed %d result lines for %d workers and %d other chunks\n--- twin\n%s", len(twin), len(sp.fins)-1, len(rest), tsrc)
+			return res
+		}
 	}
 	pr := rand.New(rand.NewSource(int64(p.Plan)))
 	mon := &monitor{prng: pr, planMode: map[string]int{}}
@@ -380,29 +517,19 @@ func (c17) Run(c fw.Case) fw.Result {
 	if p.ForceGap {
 		mon.planMode["wait-gap"] = 4
 	}
-	installHooks()
-	curMon.Store(mon)
-	log := &drive.Log{}
-	exec := drive.VMExec{L: log, Src: src}
-	ctx, cancel := context.WithCancel(context.Background())
-	defer cancel()
-	limits := runtime.CoreLimits{CallStackMaxSize: 100, StackMaxSize: 500, MaxMemorySize: 10000}
-	var cf context.CancelFunc = cancel
-	vm := runtime.NewVM(prog, exec, &ctx, &cf, mon.vmScope(exec), limits)
-	vm.SpawnAsync(runtime.MainFn(), nil, nil, nil)
-	_, intr := vm.Wait()
-	tWait := mon.clock.Add(1)
-	out := drive.VMOutcome(intr)
-	// let stragglers (cores that Wait did not wait for) reveal themselves: sample until stable
-	stragglers := 0
-	for i := 0; i < 200; i++ {
-		n := coreGoroutines()
-		if n == 0 {
-			break
+	if p.Shape == "shared-ro" {
+		// one plan in eight leaves the loop bodies alone; the others yield / sleep in them
+		if x := pr.Intn(8); x > 0 {
+			mon.tickMode = 1 + x%3
 		}
-		stragglers = n
-		time.Sleep(time.Millisecond)
+		mon.tickSalt = p.Plan
 	}
+	ex, sig, why := execute(sp.src, mon, true)
+	if sig != "" {
+		res.Verdict, res.Sig, res.Why = fw.Violated, sig, why
+		return res
+	}
+	log, out, tWait, stragglers := ex.log, ex.out, ex.tWait, ex.stragglers
 	res.Nontrivial = sp.cores >= 2
 	mon.mu.Lock()
 	events := append([]event{}, mon.events...)
@@ -452,7 +579,36 @@ func (c17) Run(c fw.Case) fw.Result {
 			got[e.Text]++
 		}
 	}
-	if sp.failKind == "" {
+	if twin != nil {
+		gotByID, rest := roResults(writes(log))
+		ids := make([]string, 0, len(twin))
+		for id := range twin {
+			ids = append(ids, id)
+		}
+		sort.Strings(ids)
+		for _, id := range ids {
+			want, have := twin[id], gotByID[id]
+			switch {
+			case len(have) == 0:
+				fail("output:count", fmt.Sprintf("the result line of core %s is missing; sequential twin: %q", id, want))
+			case len(have) != len(want):
+				fail("output:count", fmt.Sprintf("core %s printed %d result lines %q, sequential twin %d: %q", id, len(have), have, len(want), want))
+			case have[0] != want[0] && strings.HasPrefix(want[0], have[0]):
+				fail("output:unexpected-or-torn", fmt.Sprintf("core %s: the line %q reached the host torn, first chunk %q", id, util.Clip(want[0], 300), util.Clip(have[0], 300)))
+			case have[0] != want[0]:
+				fail("shared-ro:result-differs-from-sequential", fmt.Sprintf("core %s, consuming values which no core ever writes, printed %q (r id count checksum elements); the same function called sequentially with the same arguments prints %q", id, util.Clip(have[0], 300), util.Clip(want[0], 300)))
+			}
+		}
+		for id := range gotByID {
+			if _, ok := twin[id]; !ok {
+				rest = append(rest, gotByID[id]...)
+			}
+		}
+		if len(rest) > 0 {
+			sort.Strings(rest)
+			fail("output:unexpected-or-torn", fmt.Sprintf("unexpected (torn?) output chunk %q", rest[0]))
+		}
+	} else if sp.failKind == "" {
 		for line, n := range sp.lines {
 			if got[line] != n {
 				fail("output:count", fmt.Sprintf("line %q appears %d times, expected %d", line, got[line], n))
